@@ -1,6 +1,6 @@
 #!/bin/sh
 # tools_seed_confirm.sh <PROP> <N> : confirm a sub-agent's seeded change in a fresh scratch worktree and file it under seeded/
-P="$1"; N="$2"; SRC="/tmp/seed-$P"; WT="/tmp/confwt-$P-$N-$$"; OUT="/verif/seeded/$P-m$N"
+P="$1"; N="$2"; O="${3:-$2}"; SRC="/tmp/seed-$P"; WT="/tmp/confwt-$P-$N-$$"; OUT="/verif/seeded/$P-m$O"
 git -C /repo worktree add -q --detach "$WT" HEAD || exit 2
 run_demo() { (cd "$WT" && PYTHONPATH="$WT/src" timeout 300 /venv/bin/python "$SRC/m${N}_demo.py" >/tmp/demo-$$.out 2>&1; echo $?); }
 clean=$(run_demo)
